@@ -11,6 +11,10 @@
 //! oracle (independent of the Lean model): in range => Some, within 10 m of the point (longitude modulo
 //! 360); always => None, or latitude in [-90,90] and both coordinates within half a zone of the reference
 //! (zone sizes from the standard: Dlat_i, Dlon_i = 360/max(NL(lat)-i,1), a quarter of that on the surface).
+//! zone-index oracle (cprlib::check_local_indices): `j = floor(1/2 + ref_lat/d_lat - cpr_lat)`, NL of the exact
+//! latitude, `m = floor(1/2 + ref_lon/d_lon - cpr_lon)` recomputed in exact integer arithmetic (the references
+//! are dyadic); a returned position must lie in exactly these zones (classes zone-index-j, zone-index-m) unless
+//! the exact floor argument is within 1e-11 of an integer (or an odd latitude within 1e-11 of an NL transition).
 use crate::common::*;
 use crate::cprlib::*;
 use rs1090::decode::cpr::{airborne_position_with_reference, surface_position_with_reference, Position};
@@ -57,6 +61,8 @@ fn do_case(out: &mut Out, rng: &mut Rng, tab: &[(i128, u32)], c: Case) {
         }
         Some(r) => r,
     };
+    // zone-index oracle: the local decoders' j and m recomputed in integer arithmetic (exact dyadic reference)
+    check_local_indices(out, &op, tab, c.surf, c.p, c.yz, c.xz, c.ra, c.rb, &r);
     let full = if c.surf { 90.0 } else { 360.0 };
     // clause 2: for any reference whatsoever
     if let Some(p) = r {
